@@ -1,6 +1,7 @@
 /* Probe: the real DynArray and GC runtime (src/runtime) behind the driver's line protocol.
  *   dyn <op,op,...>   ops: push:v pop get:i set:i:v rm:i clear reserve:n clone len cap   (histories with valid preconditions)
  *   gc <op,op,...>    ops: alloc retain:k release:k stats
+ *   list <op,...>     the generated list type List<int> (src/runtime/list_int.c): new:c push:v pop ins:i:v rm:i get:i set:i:v clear len
  */
 #define _GNU_SOURCE
 #include <stdio.h>
@@ -9,6 +10,7 @@
 #include <inttypes.h>
 #include "runtime/dyn_array.h"
 #include "runtime/gc.h"
+#include "runtime/list_int.h"
 
 int g_argc = 0; char **g_argv = NULL;
 
@@ -53,6 +55,27 @@ static void do_gc(char *arg) {
     for (int i = 0; i < n; i++) while (gc_is_managed(objs[i])) gc_release(objs[i]);
 }
 
+static void do_list(char *arg) {
+    List_int *l = list_int_new();
+    int first = 1;
+    for (char *t = strtok(arg, ","); t; t = strtok(NULL, ",")) {
+        if (!first) putchar(','); first = 0;
+        long long x, y;
+        if (sscanf(t, "new:%lld", &x) == 1) { list_int_free(l); l = x > 0 ? list_int_with_capacity((int)x) : list_int_new(); putchar('-'); }
+        else if (sscanf(t, "push:%lld", &x) == 1) { list_int_push(l, x); putchar('-'); }
+        else if (!strcmp(t, "pop")) printf("%" PRId64, list_int_pop(l));
+        else if (sscanf(t, "ins:%lld:%lld", &x, &y) == 2) { list_int_insert(l, (int)x, y); putchar('-'); }
+        else if (sscanf(t, "rm:%lld", &x) == 1) printf("%" PRId64, list_int_remove(l, (int)x));
+        else if (sscanf(t, "get:%lld", &x) == 1) printf("%" PRId64, list_int_get(l, (int)x));
+        else if (sscanf(t, "set:%lld:%lld", &x, &y) == 2) { list_int_set(l, (int)x, y); putchar('-'); }
+        else if (!strcmp(t, "clear")) { list_int_clear(l); putchar('-'); }
+        else if (!strcmp(t, "len")) printf("%d", list_int_length(l));
+        else printf("?");
+    }
+    puts("");
+    list_int_free(l);
+}
+
 int main(void) {
     gc_init();
     char *line = NULL; size_t cap = 0; ssize_t len;
@@ -62,6 +85,7 @@ int main(void) {
         char *sp = strchr(line, ' '); char *arg = sp ? sp + 1 : line + len; if (sp) *sp = 0;
         if (!strcmp(line, "dyn")) do_dyn(arg);
         else if (!strcmp(line, "gc")) do_gc(arg);
+        else if (!strcmp(line, "list")) do_list(arg);
         else puts("bad-op");
         fflush(stdout);
     }
